@@ -109,7 +109,7 @@ def pass_through_clauses(first, hist):
             f'      trace_recv({first} + j) is self._downstream[sorted_perm("", j)] and '
             f'      trace_resb({first} + j) == (result and j == g_k) for j in range({n_offers})))',
         'C02/accepted_iff_exactly_one_downstream_took_it':
-            f'implies({OPEN}, result == (g_k < len(self._downstream)) and '
+            f'implies({OPEN}, 0 <= g_k and result == (g_k < len(self._downstream)) and '
             f'  implies(result, trace_len() == {first} + g_k + 1 and trace_resb(trace_len() - 1)))',
     }
     if hist:
@@ -339,11 +339,12 @@ contract('GroupOutput.give_part', props=['C08'], for_cls=['GroupOutput'], args={
                  '    0 <= sorted_perm("", j) and sorted_perm("", j) < old(len(part._group_pathing[-1]._downstream)) and '
                  f'   trace_recv(old(trace_len()) + j) is old(part._group_pathing[-1]._downstream[sorted_perm("", j)]) '
                  '    for j in range(trace_len() - old(trace_len())))',
-             'C02,C08/accepted_iff_the_last_offer_was_taken_and_all_earlier_ones_refused':
-                 'all(trace_resb(old(trace_len()) + j) == (result and j == trace_len() - old(trace_len()) - 1) '
-                 '    for j in range(trace_len() - old(trace_len()))) and '
-                 'implies(not result, trace_len() == old(trace_len()) + old(len(part._group_pathing[-1]._downstream))) and '
-                 'implies(result, trace_len() > old(trace_len()))',
+             'C02,C08/accepted_iff_the_last_offer_was_taken':
+                 'implies(result, trace_len() > old(trace_len()) and trace_resb(trace_len() - 1))',
+             'C02,C08/every_earlier_offer_was_refused':
+                 'all(not trace_resb(old(trace_len()) + j) for j in range(trace_len() - old(trace_len()) - ite(result, 1, 0)))',
+             'C02,C08/refused_only_after_every_downstream_of_that_path_refused':
+                 'implies(not result, trace_len() == old(trace_len()) + old(len(part._group_pathing[-1]._downstream)))',
              'C08/top_of_the_stack_popped_iff_the_part_left_the_group':
                  'ite(result, len(part._group_pathing) == g_n2 - 1 and '
                  '            all(part._group_pathing[j] == g_stack[j] for j in range(g_n2 - 1)), '
@@ -356,3 +357,10 @@ contract('GroupOutput.give_part', props=['C08'], for_cls=['GroupOutput'], args={
                  '  all(part._group_pathing[j] == g_stack[ite(j < old(len(part._group_pathing)) - 1, j, j + 1)] '
                  '      for j in range(g_n2 - 1)))',
          })
+
+# GroupInput: entry side of a group -- a pass-through that writes nothing into the history; space notifications go to the
+# upstreams of every path of the group (each path forwards to its own upstreams).
+ghost_after('GroupInput.give_part', '<entry>', g_k='0')
+contract('GroupInput.give_part', props=['C08'], for_cls=['GroupInput'], args={'part': 'ref:Part'}, result='bool',
+         requires={'part_alive': 'part is None or alive(part)'},
+         ensures=pass_through_clauses('old(trace_len())', False), modifies=['$trace'])
